@@ -176,6 +176,8 @@ func checkC21(c *Check) {
 	}
 	printerSiblingsConsultSameFields(c, a.r, "printer/field-consulted-on-every-path", true, func(pb *printerBody) bool { return reach[pb.fi.Obj.FullName()] })
 	c.Floor("printer/field-consulted-on-every-path", 3)
+	printerConsultsWhatParserAlwaysFills(c, a.r, a.pkg, tl1Family, "printer/always-parsed-field-always-consulted")
+	c.Floor("printer/always-parsed-field-always-consulted", 7)
 }
 
 // c21Unprinted: parsed fields that the String() family legitimately does not read (derived values).
